@@ -244,7 +244,7 @@ def run(ctx):
         from ..objmodel import World as _W
         env = {"pyhf": Obj("pyhf"), "log": Obj("log"), "events": Obj("events")}
         # formal parameters other than the three this rule is about keep their declared defaults
-        env.update(_W._bind(mm.methods["__init__"].node, [Obj("config")], {"modifiers": mods, "nominal_rates": Poly.atom("NOMRAW")}, skip_self=True))
+        env.update(_W()._bind(mm.methods["__init__"].node, [Obj("config")], {"modifiers": mods, "nominal_rates": Poly.atom("NOMRAW")}, skip_self=True))
         Interp(env, attrs, {}, cls_name="_MainModel").run(A.strip_docstring(mm.methods["__init__"].node.body))
         if attrs.get("_delta_mods") == ["a", "a2"] and attrs.get("_factor_mods") == ["m"]:
             ctx.holds(r2, f"{PDF}::_MainModel.__init__", "addition -> _delta_mods, multiplication -> _factor_mods")
@@ -841,8 +841,11 @@ def _rate_end_to_end(ctx, rid):
         rows = bs or 1
         lab = f"batch_size={bs} clip_sample={clipS} clip_bin={clipB} by_sample={by_sample}"
 
-        def cell(k, m, s_, r, b_):
-            return at(f"{k}{m}_s{s_}_r{r}_b{b_}")
+        tags0 = ["p0"] if bs is None else ["p0", "p1"]
+
+        def cell(k, m, s_, r, b_, tags=None):
+            # every applier cell depends on the parameter row it was computed from (the row's first parameter names it)
+            return at(f"{k}{m}_s{s_}_r{r}_b{b_}@{(tags or tags0)[r]}")
 
         def apply(recv, a, k):
             if not (isinstance(recv, Obj) and recv.name in appliers):
@@ -850,12 +853,14 @@ def _rate_end_to_end(ctx, rid):
             n = appliers[recv.name][1]
             if n == 0:
                 return None
-            return listnp.T([[[[cell(recv.name, m, s_, r, b_) for b_ in range(nB)] for r in range(rows)] for s_ in range(nS)] for m in range(n)])
+            pars_ = a[0]
+            tags = [str(to_poly(pars_[0]))] if bs is None else [str(to_poly(row_[0])) for row_ in pars_]
+            return listnp.T([[[[cell(recv.name, m, s_, r, b_, tags) for b_ in range(nB)] for r in range(rows)] for s_ in range(nS)] for m in range(n)])
 
         try:
             w = viewers.world(repo, {".apply": apply})
             w.module_env["log"] = Obj("log")
-            w.module_env["prob"] = Obj("prob")
+            w.module_env["prob"] = Obj("prob", {"Poisson": PyFunc(lambda a, k: Obj("Poisson", {"rate": a[0]}, closed=True), "Poisson"), "Independent": PyFunc(lambda a, k: Obj("Independent", {"pdf": a[0]}, closed=True), "Independent")}, closed=True)
             w.add_class(mm)
             mods = {k: Obj(k, {"op_code": op, "name": k}) for k, (op, n) in appliers.items()}
             nominal = listnp.T([[[[at(f"nom_s{s_}_b{b_}") for b_ in range(nB)]] for s_ in range(nS)]])
@@ -902,6 +907,19 @@ def _rate_end_to_end(ctx, rid):
             if bs is None:
                 want = want[0]
             g_, w_ = _strs(out), _strs(want)
+            if g_ == w_ and not by_sample and "make_pdf" in mm.methods:
+                # HISTORY: the main pdf built twice from ONE parameter buffer whose content was replaced in place in between
+                first_pdf = w.call_method(inst, "make_pdf", [pars])
+                if bs is None:
+                    pars[0] = at("p0_new")
+                else:
+                    pars[0][0], pars[1][0] = at("p0_new"), at("p1_new")
+                rate_now = _strs(w.call_method(inst, "expected_data", [pars], {"return_by_sample": False}))
+                second_pdf = w.call_method(inst, "make_pdf", [pars])
+                rate_of = lambda pdf_: _strs(pdf_.attrs["pdf"].attrs["rate"]) if isinstance(pdf_, Obj) and isinstance(pdf_.attrs.get("pdf"), Obj) else None
+                if rate_of(first_pdf) != w_ or rate_of(second_pdf) != rate_now:
+                    ctx.violated(rid, mm.methods["make_pdf"], f"main pdf [{lab}]", "the Poisson pdf of the main model is not built from the expected rates at the parameters it is given NOW: a second make_pdf with the same parameter buffer, refilled in place, hands out the pdf of the earlier content (logpdf, mainlogpdf and expected data then belong to the previous point)", expected=str(rate_now)[:160], found=str(rate_of(second_pdf))[:160])
+                    continue
             if g_ == w_:
                 ctx.holds(rid, f"{PDF}::_MainModel.expected_data [{lab}]", f"shape {listnp._shape(out)}; rate formula cell by cell")
             else:
